@@ -1158,3 +1158,213 @@ theorem pointSet_quadForm_nonneg (exp sqrt : ℝ → ℝ) (k : Kern ℝ) (h : Is
   rw [pointSet_quadForm_eq]; exact quadFormG_nonneg_of_isPSD h _
 
 end SharkVerif.C05
+
+/-! ## 14. In-place reconfiguration: the flags cached by the constructors stay sound for EVERY history
+
+A kernel object is constructed once; afterwards `ScaledKernel::setFactor` (e.g. by
+`NormalizeKernelUnitVariance::train`) and `setParameterVector` change its parameters in place, while the
+feature flags (`IS_NORMALIZED`, trusted by `featureDistanceSqr`) keep the value the constructors computed.
+`KObj` (Model/Kernels.lean) models exactly this.  The theorems say: the cached flag equals the flag of the
+*current* expression after every history of reconfigurations (because the constructors never let it depend
+on a parameter value), hence the unit-diagonal and feature-distance clauses hold after every history. -/
+namespace SharkVerif.C05
+open SharkVerif.Kernels
+
+section reconf
+variable {K : Type} [Field K]
+
+mutual
+/-- `setFactor` never changes what the constructors decided about `IS_NORMALIZED` -/
+theorem setFactor_isNormalized (f : K) : ∀ (k : Kern K) (i : Nat), (k.setFactor f i).isNormalized = k.isNormalized
+  | .linear, _ => by simp only [Kern.setFactor]
+  | .poly _ _, _ => by simp only [Kern.setFactor]
+  | .monomial _, _ => by simp only [Kern.setFactor]
+  | .gauss _, _ => by simp only [Kern.setFactor]
+  | .ard _, _ => by simp only [Kern.setFactor]
+  | .normalized k, i => by simp only [Kern.setFactor, Kern.isNormalized]
+  | .scaled g k, 0 => by simp only [Kern.setFactor, Kern.isNormalized]
+  | .scaled g k, i + 1 => by simp only [Kern.setFactor, Kern.isNormalized]
+  | .wsum _ _ _, _ => by simp only [Kern.setFactor, Kern.isNormalized]
+  | .prod ks, i => by simp only [Kern.setFactor, Kern.isNormalized]; exact setFactorList_allNormalized f ks i
+  | .subrange _ _ _, _ => by simp only [Kern.setFactor, Kern.isNormalized]
+  | .mapped _ _ _, _ => by simp only [Kern.setFactor, Kern.isNormalized]
+theorem setFactorList_allNormalized (f : K) : ∀ (ks : List (Kern K)) (i : Nat),
+    allNormalized (setFactorList f ks i) = allNormalized ks
+  | [], _ => by simp only [setFactorList]
+  | k :: ks, i => by
+      simp only [setFactorList]
+      split
+      · simp only [allNormalized, setFactor_isNormalized f k i]
+      · simp only [allNormalized, setFactorList_allNormalized f ks (i - k.numScaled)]
+end
+
+mutual
+/-- `setParameterVector` never changes it either (no constructor looks at a parameter value) -/
+theorem setParams_isNormalized (exp : K → K) : ∀ (k : Kern K) (ps : List K),
+    (k.setParams exp ps).isNormalized = k.isNormalized
+  | .linear, _ => by simp only [Kern.setParams]
+  | .poly _ _, _ => by simp only [Kern.setParams, Kern.isNormalized]
+  | .monomial _, _ => by simp only [Kern.setParams]
+  | .gauss _, _ => by simp only [Kern.setParams, Kern.isNormalized]
+  | .ard _, _ => by simp only [Kern.setParams, Kern.isNormalized]
+  | .normalized k, ps => by simp only [Kern.setParams, Kern.isNormalized]
+  | .scaled _ k, ps => by simp only [Kern.setParams, Kern.isNormalized]
+  | .wsum _ _ _, _ => by simp only [Kern.setParams, Kern.isNormalized]
+  | .prod ks, ps => by simp only [Kern.setParams, Kern.isNormalized]; exact setParamsList_allNormalized exp ks ps
+  | .subrange _ _ _, _ => by simp only [Kern.setParams, Kern.isNormalized]
+  | .mapped _ _ _, _ => by simp only [Kern.setParams, Kern.isNormalized]
+theorem setParamsList_allNormalized (exp : K → K) : ∀ (ks : List (Kern K)) (ps : List K),
+    allNormalized (setParamsList exp ks ps) = allNormalized ks
+  | [], _ => by simp only [setParamsList]
+  | k :: ks, ps => by
+      simp only [setParamsList, allNormalized, setParams_isNormalized exp k,
+        setParamsList_allNormalized exp ks]
+end
+
+/-- the invariant of a live object: the cached flag is the flag of the current expression -/
+def FlagSound (o : KObj K) : Prop := o.normFlag = o.expr.isNormalized
+
+theorem construct_flagSound (k : Kern K) : FlagSound (KObj.construct k) := rfl
+
+theorem apply_flagSound (exp : K → K) (o : KObj K) (h : FlagSound o) (r : Reconf K) : FlagSound (o.apply exp r) := by
+  cases r with
+  | setFactor i f =>
+    simp only [FlagSound, KObj.apply] at h ⊢
+    rw [setFactor_isNormalized f o.expr i]; exact h
+  | setParams ps =>
+    simp only [FlagSound, KObj.apply] at h ⊢
+    rw [setParams_isNormalized exp o.expr ps]; exact h
+
+/-- **history_flag_sound** — after EVERY history of reconfigurations (any number of `setFactor` calls on any
+`ScaledKernel` of the expression with any factor, any number of `setParameterVector` calls with any vector)
+the `IS_NORMALIZED` flag cached at construction is the flag of the current expression. -/
+theorem history_flag_sound (exp : K → K) (k : Kern K) (h : List (Reconf K)) :
+    FlagSound ((KObj.construct k).run exp h) := by
+  have gen : ∀ (h : List (Reconf K)) (o : KObj K), FlagSound o → FlagSound (o.run exp h) := by
+    intro h
+    induction h with
+    | nil => intro o ho; exact ho
+    | cons r rs ih => intro o ho; exact ih (o.apply exp r) (apply_flagSound exp o ho r)
+  exact gen h _ (construct_flagSound k)
+
+/-- the feature distance of a live object with a sound flag is the feature distance of its expression -/
+theorem featureDistanceSqr_of_flagSound (exp sqrt : K → K) (o : KObj K) (h : FlagSound o) (x z : Point K) :
+    o.featureDistanceSqr exp sqrt x z = o.expr.featureDistanceSqr exp sqrt x z := by
+  obtain ⟨e, fl⟩ := o
+  simp only [FlagSound] at h
+  subst h
+  cases e <;> rfl
+
+/-- body of the batch `featureDistanceSqr` of `AbstractKernelFunction`, for a given value of the flag -/
+theorem featureDistanceBlock_aux (exp sqrt : K → K) (k : Kern K) (fl : Bool) (X1 X2 : Mat K) :
+    (if fl then mapMat (· + two) (mapMat (· * (-two)) (k.evalBlock exp sqrt X1 X2))
+     else List.zipWith (fun x row =>
+        List.zipWith (fun v s => v + (k.eval exp sqrt x x + s)) row (X2.map fun z => k.eval exp sqrt z z))
+        X1 (mapMat (· * (-two)) (k.evalBlock exp sqrt X1 X2))) =
+      tab X1 X2 fun x z =>
+        if fl then two - two * k.eval exp sqrt x z
+        else k.eval exp sqrt x x - two * k.eval exp sqrt x z + k.eval exp sqrt z z := by
+  rw [batch_eval_eq_single, mapMat_tab]
+  cases fl with
+  | true =>
+    simp only [if_true, mapMat_tab]
+    exact tab_congr _ _ _ _ fun x z => by ring
+  | false =>
+    simp only [Bool.false_eq_true, if_false]
+    unfold tab
+    rw [zipWith_left_map]
+    apply List.map_congr_left
+    intro x _
+    rw [zipWith_map_same]
+    apply List.map_congr_left
+    intro z _
+    ring
+
+/-- **featureDistanceBlock_eq_single** — the batch version of `featureDistanceSqr` (used by kernel nearest
+neighbours / kernel k-means) is the matrix of the single-pair feature distances, for every live object. -/
+theorem featureDistanceBlock_eq_single (exp sqrt : K → K) (o : KObj K) (X1 X2 : Mat K) :
+    o.featureDistanceBlock exp sqrt X1 X2 = tab X1 X2 (o.featureDistanceSqr exp sqrt) := by
+  obtain ⟨e, fl⟩ := o
+  cases e with
+  | linear => rfl
+  | poly d c => exact featureDistanceBlock_aux exp sqrt (.poly d c) fl X1 X2
+  | monomial n => exact featureDistanceBlock_aux exp sqrt (.monomial n) fl X1 X2
+  | gauss g => exact featureDistanceBlock_aux exp sqrt (.gauss g) fl X1 X2
+  | ard gs => exact featureDistanceBlock_aux exp sqrt (.ard gs) fl X1 X2
+  | normalized b => exact featureDistanceBlock_aux exp sqrt (.normalized b) fl X1 X2
+  | scaled f b => exact featureDistanceBlock_aux exp sqrt (.scaled f b) fl X1 X2
+  | wsum ws w ks => exact featureDistanceBlock_aux exp sqrt (.wsum ws w ks) fl X1 X2
+  | prod ks => exact featureDistanceBlock_aux exp sqrt (.prod ks) fl X1 X2
+  | subrange a b k => exact featureDistanceBlock_aux exp sqrt (.subrange a b k) fl X1 X2
+  | mapped A b k => exact featureDistanceBlock_aux exp sqrt (.mapped A b k) fl X1 X2
+
+end reconf
+
+section reconfOrdered
+variable {K : Type} [Field K] [LinearOrder K] [IsStrictOrderedRing K] (exp sqrt : K → K)
+
+/-- **history_diag_one** — whenever a live kernel object *claims* to be normalised, after any history of
+reconfigurations, `k(x,x) = 1` for its current parameters. -/
+theorem history_diag_one (hexp : exp 0 = 1) (hsqrt : ∀ a : K, 0 ≤ a → sqrt a * sqrt a = a)
+    (k : Kern K) (h : List (Reconf K)) (x : Point K)
+    (hclaim : ((KObj.construct k).run exp h).normFlag = true)
+    (hpos : DiagPos exp sqrt ((KObj.construct k).run exp h).expr x) :
+    ((KObj.construct k).run exp h).expr.eval exp sqrt x x = 1 := by
+  have hs := history_flag_sound exp k h
+  simp only [FlagSound] at hs
+  exact isNormalized_diag_one exp sqrt hexp hsqrt _ x (hs ▸ hclaim) hpos
+
+/-- **history_featureDistance_def** — after any history of reconfigurations `featureDistanceSqr` of the live
+object (which trusts the flag cached at construction) is `k(x,x) − 2k(x,z) + k(z,z)` for the CURRENT parameters. -/
+theorem history_featureDistance_def (hexp : exp 0 = 1) (hsqrt : ∀ a : K, 0 ≤ a → sqrt a * sqrt a = a)
+    (k : Kern K) (h : List (Reconf K)) (x z : Point K) (hlen : x.length = z.length)
+    (hx : DiagPos exp sqrt ((KObj.construct k).run exp h).expr x)
+    (hz : DiagPos exp sqrt ((KObj.construct k).run exp h).expr z) :
+    ((KObj.construct k).run exp h).featureDistanceSqr exp sqrt x z =
+      ((KObj.construct k).run exp h).expr.eval exp sqrt x x
+        - two * ((KObj.construct k).run exp h).expr.eval exp sqrt x z
+        + ((KObj.construct k).run exp h).expr.eval exp sqrt z z := by
+  rw [featureDistanceSqr_of_flagSound exp sqrt _ (history_flag_sound exp k h)]
+  exact featureDistance_def exp sqrt hexp hsqrt _ x z hlen hx hz
+
+/-- why the flag must not depend on a parameter value: a `ScaledKernel` over a normalised base has diagonal
+`factor`, so a flag decided for factor 1 is wrong after `setFactor 2` -/
+theorem scaled_diag (hexp : exp 0 = 1) (f g : K) (x : Point K) :
+    ((KObj.construct (.scaled 1 (.gauss g))).apply exp (.setFactor 0 f)).expr.eval exp sqrt x x = f := by
+  simp [KObj.apply, KObj.construct, Kern.setFactor, Kern.eval, distSqr_self, hexp]
+
+end reconfOrdered
+end SharkVerif.C05
+
+/-! ### non-vacuity of §14 (the situation of `NormalizeKernelUnitVariance`: default factor, rescaled later) -/
+namespace SharkVerif.C05
+open SharkVerif.Kernels
+
+example : ((KObj.construct (.scaled 1 (.gauss (1/2)) : Kern ℝ)).run Real.exp
+      [.setFactor 0 (5/2), .setParams [1/4]]).expr = .scaled (5/2) (.gauss (1/4)) := by
+  simp [KObj.run, KObj.apply, KObj.construct, Kern.setFactor, Kern.setParams]
+
+example : ((KObj.construct (.scaled 1 (.gauss (1/2)) : Kern ℝ)).run Real.exp
+      [.setFactor 0 (5/2), .setParams [1/4]]).normFlag = false := by
+  simp [KObj.run, KObj.apply, KObj.construct, Kern.isNormalized]
+
+/-- a product of a normalised polynomial kernel and a rescaled Gaussian keeps claiming `IS_NORMALIZED` only if no
+ScaledKernel is involved; here the claim survives a `setParameterVector` and the diagonal is 1 -/
+example : ((KObj.construct (.prod [.gauss (1/2), .normalized (.poly 2 1)] : Kern ℝ)).run Real.exp
+      [.setParams [2, 3]]).expr.eval Real.exp Real.sqrt [1, 2] [1, 2] = 1 := by
+  refine history_diag_one Real.exp Real.sqrt Real.exp_zero real_sqrt_spec _ _ _ (by
+    simp [KObj.run, KObj.apply, KObj.construct, Kern.isNormalized, allNormalized]) ?_
+  simp [KObj.run, KObj.apply, KObj.construct, Kern.setParams, setParamsList, Kern.numParams, DiagPos, DiagPosList,
+    Kern.eval, dot, powNat]
+  norm_num
+
+example : ((KObj.construct (.scaled 1 (.gauss (1/2)) : Kern ℝ)).run Real.exp [.setFactor 0 (5/2)]).featureDistanceSqr
+      Real.exp Real.sqrt [1, 2] [3, -1] =
+    5/2 * Real.exp (-(1/2) * 13) * 0 + (5/2 - two * (5/2 * Real.exp (-(1/2) * 13)) + 5/2) := by
+  rw [history_featureDistance_def Real.exp Real.sqrt Real.exp_zero real_sqrt_spec _ _ _ _ (by simp)
+    (by simp [KObj.run, KObj.apply, KObj.construct, Kern.setFactor, DiagPos])
+    (by simp [KObj.run, KObj.apply, KObj.construct, Kern.setFactor, DiagPos])]
+  simp [KObj.run, KObj.apply, KObj.construct, Kern.setFactor, Kern.eval, distSqr]
+  norm_num
+
+end SharkVerif.C05
